@@ -627,7 +627,7 @@ fn c17_expand_2_plain() {
     c17_body::<2>(Some(false));
 }
 
-// @verif props=C17 tier=thorough timeout=5400 mem=20 unwind=6 bound="templates of 3 symbols over {$,0,1,2,9,{,},a,e-acute}; 2 groups" funcs="Regex::expand_replacement,Match::group,Match::named_group" stubs="String::{new,with_capacity,push,push_str} -> fixed 32-byte buffer model, capacity overflow asserted"
+// @verif props=C17 tier=extended timeout=5400 mem=20 unwind=6 bound="templates of 3 symbols over {$,0,1,2,9,{,},a,e-acute}; 2 groups" funcs="Regex::expand_replacement,Match::group,Match::named_group" stubs="String::{new,with_capacity,push,push_str} -> fixed 32-byte buffer model, capacity overflow asserted"
 #[kani::proof]
 #[kani::unwind(6)]
 #[kani::stub(std::string::String::push, stub_string_push)]
